@@ -155,27 +155,27 @@ func guaranteedPaths(repo string) (map[string]bool, int, error) {
 
 // optional API fields: Go field path (from the StatefulSet) -> JSON path
 var optionalAPIFields = map[string]string{
-	"StatefulSetSpec.Replicas":                  "spec.replicas",
-	"StatefulSetSpec.Selector":                  "spec.selector",
-	"StatefulSetSpec.RevisionHistoryLimit":      "spec.revisionHistoryLimit",
-	"StatefulSetUpdateStrategy.RollingUpdate":   "spec.updateStrategy.rollingUpdate",
+	"StatefulSetSpec.Replicas":                   "spec.replicas",
+	"StatefulSetSpec.Selector":                   "spec.selector",
+	"StatefulSetSpec.RevisionHistoryLimit":       "spec.revisionHistoryLimit",
+	"StatefulSetUpdateStrategy.RollingUpdate":    "spec.updateStrategy.rollingUpdate",
 	"RollingUpdateStatefulSetStrategy.Partition": "spec.updateStrategy.rollingUpdate.partition",
-	"StatefulSetStatus.CollisionCount":          "status.collisionCount",
+	"StatefulSetStatus.CollisionCount":           "status.collisionCount",
 }
 
 // reviewed exceptions for index/slice expressions and other panic sites: "function|expression" -> reason
 var panicExceptions = map[string]string{
-	"getPatch|‹map[string]interface{}›[\"spec\"].(map[string]interface{})":            "the codec always emits spec for a typed object: the JSON tag of Spec has a name and encoding/json writes struct-typed fields even with omitempty",
-	"getPatch|‹map[string]interface{}›[\"template\"].(map[string]interface{})":       "the JSON tag of Template has no omitempty (checked by C18.1)",
-	"ApplyRevision|runtime.EncodeOrDie(patchCodec, ‹*v1.StatefulSet›)":       "encoding a typed, registered object with the package's own codec cannot fail",
-	"getStatefulSetRevisions|‹*v1.ControllerRevision›":                "assigned from newRevision/updateControllerRevision/createControllerRevision after their error was tested nil; each returns a non-nil revision with a nil error (NewControllerRevision always allocates; the API calls return the object)",
+	"getPatch|‹map[string]interface{}›[\"spec\"].(map[string]interface{})":               "the codec always emits spec for a typed object: the JSON tag of Spec has a name and encoding/json writes struct-typed fields even with omitempty",
+	"getPatch|‹map[string]interface{}›[\"template\"].(map[string]interface{})":           "the JSON tag of Template has no omitempty (checked by C18.1)",
+	"ApplyRevision|runtime.EncodeOrDie(patchCodec, ‹*v1.StatefulSet›)":                   "encoding a typed, registered object with the package's own codec cannot fail",
+	"getStatefulSetRevisions|‹*v1.ControllerRevision›":                                   "assigned from newRevision/updateControllerRevision/createControllerRevision after their error was tested nil; each returns a non-nil revision with a nil error (NewControllerRevision always allocates; the API calls return the object)",
 	"NewControllerRevision|‹*v1.ControllerRevision›.Labels[ControllerRevisionHashLabel]": "cr is built three lines above with Labels: labelMap, a map made in this function",
-	"updateStatefulSet|‹*v1.Pod›#2": "scale-down wait: the target is a condemned pod that is neither terminating nor Running/Ready, so the first-unhealthy scan over the condemned pods counted it and (since fix D12) recorded a pod whenever none was recorded; the other dereference of this variable, under unhealthy > 0, is proven by the engine and guards the scan itself",
-	"addPod|‹interface{}›.(*v1.Pod)":                                        "informer Add handlers receive the registered type (T4)",
-	"updatePod|‹interface{}›.(*v1.Pod)":                                     "informer Update handlers receive the registered type (T4)",
-	"processNextWorkItem|‹interface{}›.(string)":                            "the queue only ever receives string keys from enqueueStatefulSet (keyFunc returns a string)",
-	"ClaimPods$lit|‹v1.Object›.(*v1.Pod)":                                 "ClaimObject hands the callbacks the object it was given, which ClaimPods takes from a []*v1.Pod",
-	"Less|‹k8s.byRevision›[‹int›]": "sort.Interface contract: indices are within [0, Len())", "Swap|‹k8s.byRevision›[‹int›]": "sort.Interface contract",
+	"updateStatefulSet|‹*v1.Pod›#2":                                                      "scale-down wait: the target is a condemned pod that is neither terminating nor Running/Ready, so the first-unhealthy scan over the condemned pods counted it and (since fix D12) recorded a pod whenever none was recorded; the other dereference of this variable, under unhealthy > 0, is proven by the engine and guards the scan itself",
+	"addPod|‹interface{}›.(*v1.Pod)":                                                     "informer Add handlers receive the registered type (T4)",
+	"updatePod|‹interface{}›.(*v1.Pod)":                                                  "informer Update handlers receive the registered type (T4)",
+	"processNextWorkItem|‹interface{}›.(string)":                                         "the queue only ever receives string keys from enqueueStatefulSet (keyFunc returns a string)",
+	"ClaimPods$lit|‹v1.Object›.(*v1.Pod)":                                                "ClaimObject hands the callbacks the object it was given, which ClaimPods takes from a []*v1.Pod",
+	"Less|‹k8s.byRevision›[‹int›]":                                                       "sort.Interface contract: indices are within [0, Len())", "Swap|‹k8s.byRevision›[‹int›]": "sort.Interface contract",
 	"Less|‹statefulset.ascendingOrdinal›[‹int›]": "sort.Interface contract", "Swap|‹statefulset.ascendingOrdinal›[‹int›]": "sort.Interface contract",
 	"Less|‹statefulset.overlappingStatefulSets›[‹int›]": "sort.Interface contract", "Swap|‹statefulset.overlappingStatefulSets›[‹int›]": "sort.Interface contract",
 }
